@@ -763,8 +763,8 @@ def rule_allpair(prog, rep, tier, anchor="gen.gen"):
         p = p._parent
     if fmt is not None and not isinstance(g, ast.For):
         order = []
-        for k in fmt.keywords:
-            sub = list(ast.walk(k.value))
+        for kv in list(fmt.args) + [k.value for k in fmt.keywords]:   # the evaluation order of a call's arguments
+            sub = list(ast.walk(kv))
             if g in sub:
                 order.append("fill")
             if any(r in sub for r in reads):
@@ -803,14 +803,25 @@ def rule_gen_layout(prog, rep, tier, anchor="gen.gen"):
     for c in ast.walk(fi.node):
         if isinstance(c, ast.Call) and isinstance(c.func, ast.Attribute) and c.func.attr == "format" and isinstance(c.func.value, ast.Constant) and isinstance(c.func.value.value, str):
             kws = {k.arg for k in c.keywords if k.arg}
-            if not ({"prepend", "imports"} <= kws):
+            import string
+            raw_fields = [f for _, f, _, _ in string.Formatter().parse(c.func.value.value) if f is not None]
+            positional = bool(raw_fields) and all(f == "" or f.isdigit() for f in raw_fields) and len(c.args) >= 4
+            if not ({"prepend", "imports"} <= kws) and not positional:
                 continue
             found = True
-            import string
-            fields = [f for _, f, _, _ in string.Formatter().parse(c.func.value.value) if f]
+            fields = [f for f in raw_fields if f] if not positional else [str(i) if f == "" else f for i, f in enumerate(raw_fields)]
             roles = []
             for f in fields:
                 kv = next((k.value for k in c.keywords if k.arg == f), None)
+                if positional:
+                    kv = c.args[int(f)] if int(f) < len(c.args) else None
+                    names_ = {x.id for x in ast.walk(kv) if isinstance(x, ast.Name)} if kv is not None else set()
+                    if "prepend" in names_ and "imports" not in names_:
+                        roles.append("prepend")
+                        continue
+                    if "imports" in names_ and "prepend" not in names_:
+                        roles.append("imports")
+                        continue
                 if f == "prepend":
                     roles.append("prepend")
                 elif f == "imports":
